@@ -90,6 +90,8 @@ type WLayout struct {
 	// SparseSubrs: the Subrs array starts with unused (null) slots
 	SparseSubrs bool
 	CutShort    bool
+	// LineEnd is the line end of the clear-text part ("" = LF; CR and CR LF are as good)
+	LineEnd string
 	// DeepChains counts the charstrings wrapped into a call chain 10 deep (filled while encoding)
 	DeepChains int
 }
@@ -637,6 +639,11 @@ func RenderType1(rng *rand.Rand, f *WFont, lay *WLayout) []byte {
 	}
 
 	trailer := strings.Repeat(strings.Repeat("0", 64)+"\n", 8) + "cleartomark\n"
+	if lay.LineEnd != "" && lay.LineEnd != "\n" {
+		cb := bytes.ReplaceAll(clear.Bytes(), []byte("\n"), []byte(lay.LineEnd))
+		clear.Reset()
+		clear.Write(cb)
+	}
 	var out bytes.Buffer
 	switch lay.Container {
 	case "plain":
